@@ -677,7 +677,10 @@ fn build_default_for_struct(
         #[automatically_derived]
         impl #impl_g #trait_ for #this_ty #wheres {
             fn default() -> Self {
-                #value
+                // (not `{ #value }`: a value that starts like a block - `if .. {} else {} | X`, `{} - X` - would be
+                // read as a statement followed by another expression)
+                let __value: Self = #value;
+                __value
             }
         }
     })
@@ -744,7 +747,10 @@ fn build_default_for_enum(
         #[automatically_derived]
         impl #impl_g #trait_ for #this_ty #wheres {
             fn default() -> Self {
-                #value
+                // (not `{ #value }`: a value that starts like a block - `if .. {} else {} | X`, `{} - X` - would be
+                // read as a statement followed by another expression)
+                let __value: Self = #value;
+                __value
             }
         }
     })
